@@ -72,6 +72,8 @@ pub struct Cfg {
     pub sqpoll: bool,
     /// Failing zero-copy sends still post a notification CQE.
     pub zc_error_notif: bool,
+    /// Offer DropHeld / CloseHeld / Stdio letters.
+    pub held_letters: bool,
 }
 
 impl Cfg {
@@ -101,6 +103,7 @@ impl Cfg {
             final_drop_ring_first: false,
             sqpoll: false,
             zc_error_notif: true,
+            held_letters: false,
         }
     }
 }
@@ -119,8 +122,12 @@ pub enum Action {
     PostRaw(usize),
     /// Make the next cancellation of op `i` lose the race.
     CancelLoses(usize),
-    /// Drop an AsyncFd or ReadBuf handed out by operation `i`.
+    /// Drop the AsyncFds / ReadBufs handed out by operation `i`.
     DropHeld(usize),
+    /// `AsyncFd::close` on the first descriptor handed out by operation `i`.
+    CloseHeld(usize),
+    /// Create and drop a standard stream handle.
+    Stdio(u8),
 }
 
 /// Completion outcome letters.
@@ -190,7 +197,11 @@ struct Slot {
     cancels_seen: u32,
     /// A CQE that makes the op ready was processed while it was Pending.
     ready_unwoken_since: Option<u64>,
+    /// Objects handed out by the op (shared with the Op while it lives).
+    held: HeldPair,
 }
+
+type HeldPair = (std::rc::Rc<std::cell::RefCell<Vec<AsyncFd>>>, std::rc::Rc<std::cell::RefCell<Vec<a10::io::ReadBuf>>>);
 
 pub struct OpsWorld {
     cfg: Cfg,
@@ -209,6 +220,9 @@ pub struct OpsWorld {
     obs: u64,
     /// Wakers registered for a free submission slot: (waker, wake count that consumes the entry).
     slot_waiters: Vec<(HWaker, u64)>,
+    stdio_done: bool,
+    /// Descriptors given to `AsyncFd::close`: (number, direct, slot of the Close op).
+    close_targets: Vec<(i32, bool, usize)>,
 }
 
 fn v(prop: &str, sig: &str, msg: String) -> Violation {
@@ -262,6 +276,8 @@ impl OpsWorld {
             written_pos: 0,
             obs: 0,
             slot_waiters: Vec::new(),
+            stdio_done: false,
+            close_targets: Vec::new(),
         };
         for k in w.cfg.preset.clone() {
             w.new_op(k);
@@ -290,7 +306,9 @@ impl OpsWorld {
         let env = ops::Env { sq: self.sq.as_ref().unwrap(), fd: self.fd.unwrap(), pool: self.pool.as_ref(), nth };
         let op = ops::make(kind, &env);
         let waker = self.new_waker();
+        let held = (op.held.clone(), op.bufs.clone());
         self.slots.push(Slot {
+            held,
             kind,
             op: Some(op),
             nth,
@@ -345,6 +363,10 @@ impl OpsWorld {
                 }
             });
         }
+    }
+
+    fn held_of(&self, i: usize) -> HeldPair {
+        self.slots[i].held.clone()
     }
 
     fn sq_room(&self) -> bool {
@@ -465,7 +487,7 @@ impl OpsWorld {
             }
             LocalAddr => format!("addr:{}", addr()),
             Connect | Bind | SetSockOpt | CreateDir | Rename | RemoveFile | Fsync | Truncate | Shutdown | WriteAll
-            | WriteAllVectored | SendAll => "unit".to_string(),
+            | WriteAllVectored | SendAll | CloseFd => "unit".to_string(),
             SockOpt | Statx | WaitId => "opaque".to_string(),
         }
     }
@@ -883,17 +905,13 @@ impl OpsWorld {
                 self.report("C06", &sig, format!("op {i} ({kind:?}) dropped while not in flight (phase {:?}) but a request was published: {}", self.slots[i].phase, sqe.describe()));
             }
         }
-        // Keep handed-out objects alive in a parked Op-less slot.
+        // Handed-out objects stay alive in the slot.
         self.slots[i].op = None;
-        HELD.with(|h| h.borrow_mut().push((held, bufs)));
+        let _ = (held, bufs);
         self.absorb_kernel_log();
     }
 }
 
-thread_local! {
-    /// Objects handed out by dropped operations (dropped in the epilogue).
-    static HELD: std::cell::RefCell<Vec<(std::rc::Rc<std::cell::RefCell<Vec<AsyncFd>>>, std::rc::Rc<std::cell::RefCell<Vec<a10::io::ReadBuf>>>)>> = const { std::cell::RefCell::new(Vec::new()) };
-}
 
 impl World for OpsWorld {
     type Action = Action;
@@ -962,6 +980,20 @@ impl World for OpsWorld {
         for i in 0..self.cfg.raw_cqes.len() {
             v.push((Action::PostRaw(i), c.raw));
         }
+        if self.cfg.held_letters {
+            for i in 0..self.slots.len() {
+                let n = self.held_of(i).0.borrow().len() + self.held_of(i).1.borrow().len();
+                if n > 0 {
+                    v.push((Action::DropHeld(i), 0));
+                    if !self.held_of(i).0.borrow().is_empty() && self.created < self.cfg.max_ops + 2 {
+                        v.push((Action::CloseHeld(i), 0));
+                    }
+                }
+            }
+            if !self.stdio_done {
+                v.push((Action::Stdio(1), 1));
+            }
+        }
         v
     }
 
@@ -982,7 +1014,57 @@ impl World for OpsWorld {
                     k.cancel_policy.insert(ud, CancelMode::Lose);
                 });
             }
-            Action::DropHeld(_) => {}
+            Action::DropHeld(i) => {
+                let (fds, bufs) = self.held_of(*i);
+                talloc::track(|| {
+                    fds.borrow_mut().clear();
+                    bufs.borrow_mut().clear();
+                });
+                self.absorb_kernel_log();
+            }
+            Action::CloseHeld(i) => {
+                let (fds, _) = self.held_of(*i);
+                let fd = fds.borrow_mut().remove(0);
+                let direct = format!("{:?}", fd.kind()) == "Direct";
+                self.close_targets.push((ops::raw_of(&fd), direct, self.slots.len()));
+                let op = ops::make_close(fd);
+                let nth = self.created;
+                self.created += 1;
+                let waker = self.new_waker();
+                self.slots.push(Slot {
+                    kind: Kind::CloseFd,
+                    op: Some(op),
+                    nth,
+                    ud: None,
+                    waker,
+                    polled: false,
+                    pending: None,
+                    blocked: false,
+                    phase: Phase::NotStarted,
+                    dropped: false,
+                    recs: Vec::new(),
+                    taken: 0,
+                    attempt_start: 0,
+                    first_sqe: None,
+                    n_sqes: 0,
+                    items: 0,
+                    seen: Vec::new(),
+                    cancel_expected: 0,
+                    cancels_seen: 0,
+                    ready_unwoken_since: None,
+                    held: Default::default(),
+                });
+            }
+            Action::Stdio(which) => {
+                self.stdio_done = true;
+                let sq = self.sq.as_ref().unwrap().clone();
+                talloc::track(|| match which {
+                    0 => drop(a10::io::stdin(sq)),
+                    1 => drop(a10::io::stdout(sq)),
+                    _ => drop(a10::io::stderr(sq)),
+                });
+                self.absorb_kernel_log();
+            }
         }
     }
 
@@ -1094,7 +1176,10 @@ impl OpsWorld {
         }
         // 3: drop handed-out objects, the descriptor, the pool, the ring.
         talloc::track(|| {
-            HELD.with(|h| h.borrow_mut().clear());
+            for s in &self.slots {
+                s.held.0.borrow_mut().clear();
+                s.held.1.borrow_mut().clear();
+            }
             if let Some(fd) = self.fd.take() {
                 drop(unsafe { Box::from_raw(std::ptr::from_ref(fd).cast_mut()) });
             }
@@ -1113,9 +1198,10 @@ impl OpsWorld {
             let prop = if class.starts_with("sq-") { "C04" } else if class.starts_with("close-") { "C07" } else { "C01" };
             self.report(prop, &class, msg);
         }
-        let descs = simk::with(|k| {
+        let (descs, origins) = simk::with(|k| {
             k.sync_closes();
-            k.descs.clone()
+            let origins: Vec<(u32, &'static str, u64)> = k.reqs.iter().map(|r| (r.serial, opcode_name(r.opcode), r.user_data)).collect();
+            (k.descs.clone(), origins)
         });
         simk::shutdown();
         let rep = talloc::disarm();
@@ -1146,8 +1232,30 @@ impl OpsWorld {
             if d.origin == 0 {
                 // The harness descriptor, owned by the world's AsyncFd.
             }
-            if d.open {
-                let sig = format!("unclosed/{}", match d.kind { simk::DescKind::Regular(_) => "regular", simk::DescKind::Fixed { .. } => "direct" });
+            // A descriptor handed to `AsyncFd::close` whose Close future did
+            // not complete successfully is outside the statement.
+            let (num, direct) = match d.kind {
+                simk::DescKind::Regular(fd) => (fd, false),
+                simk::DescKind::Fixed { slot, .. } => (slot as i32, true),
+            };
+            let unfinished_close = self
+                .close_targets
+                .iter()
+                .any(|(n, dr, slot)| *n == num && *dr == direct && !self.slots[*slot].seen.iter().any(|s| s == "unit"));
+            if d.open && !unfinished_close {
+                let kind = match d.kind { simk::DescKind::Regular(_) => "regular", simk::DescKind::Fixed { .. } => "direct" };
+                let origin = origins.iter().find(|(ser, _, _)| *ser == d.origin);
+                let class = match origin {
+                    Some((_, opname, ud)) => {
+                        let slot = self.slots.iter().find(|s| s.ud == Some(*ud));
+                        match slot {
+                            Some(s) if s.dropped && s.phase != Phase::Finished => format!("delivered-to-abandoned-op:{opname}"),
+                            _ => format!("owner-gone:{opname}"),
+                        }
+                    }
+                    None => "harness-descriptor".to_string(),
+                };
+                let sig = format!("unclosed/{kind}/{class}");
                 self.report("C07", &sig, format!("descriptor {:?} issued for request #{} was never closed", d.kind, d.origin));
             }
             if d.closes.len() > 1 {
